@@ -45,6 +45,10 @@ type MCase struct {
 	Weighted bool    `json:"weighted"` // registry only: all endpoints static-weighted
 	Weights  []int32 `json:"weights"`
 	Calls    []MCall `json:"calls"`
+	// WTypes (registry only, non-empty = mixed): per endpoint weight type 0 (loop) / 1 (static),
+	// not all equal - static weights only apply when every endpoint carries one, so the
+	// routing is that of the unweighted set, whatever the order of the registry's list
+	WTypes []int32 `json:"wtypes,omitempty"`
 }
 
 var (
@@ -68,7 +72,43 @@ func (r *mRegistry) QueryServantBySet(ctx context.Context, id, set string) ([]re
 func drawM(rt *rapid.T) MCase {
 	c := MCase{NServers: rapid.IntRange(3, 5).Draw(rt, "nservers"), Registry: rapid.Bool().Draw(rt, "registry"), Block: -1}
 	if c.Registry {
-		c.Weighted = rapid.Bool().Draw(rt, "weighted")
+		switch rapid.SampledFrom([]string{"loop", "static", "static", "mixed", "mixed"}).Draw(rt, "weightMode") {
+		case "static":
+			c.Weighted = true
+		case "mixed":
+			// shapes: the same type at both ends of the list with the other type in between
+			// (a check that only compares neighbours or the ends is fooled), or free
+			shape := rapid.SampledFrom([]string{"ends-static", "ends-static", "ends-loop", "free"}).Draw(rt, "mixedShape")
+			c.WTypes = make([]int32, c.NServers)
+			switch shape {
+			case "free":
+				ones := 0
+				for i := range c.WTypes {
+					c.WTypes[i] = int32(rapid.IntRange(0, 1).Draw(rt, "wtype"))
+					ones += int(c.WTypes[i])
+				}
+				if ones == 0 {
+					c.WTypes[0] = 1
+				} else if ones == c.NServers {
+					c.WTypes[0] = 0
+				}
+			default:
+				end, mid := int32(1), int32(0)
+				if shape == "ends-loop" {
+					end, mid = 0, 1
+				}
+				for i := range c.WTypes {
+					c.WTypes[i] = end
+				}
+				k := 1 + rapid.IntRange(0, c.NServers-3).Draw(rt, "midAt")
+				c.WTypes[k] = mid
+				for i := 1; i < c.NServers-1; i++ {
+					if i != k && rapid.Bool().Draw(rt, "midMore") {
+						c.WTypes[i] = mid
+					}
+				}
+			}
+		}
 		if rapid.Bool().Draw(rt, "withBlock") {
 			c.Block = rapid.IntRange(0, c.NServers-1).Draw(rt, "block")
 		}
@@ -131,7 +171,7 @@ func runM(c MCase) *stat.Failure {
 		for i := 0; i < c.NServers; i++ {
 			hosts[i] = mServers[i].Host
 			ef := endpointf.EndpointF{Host: hosts[i], Port: int32(mServers[i].Port), Timeout: 60000, Istcp: 1, Weight: 100}
-			if c.Weighted {
+			if c.Weighted || (len(c.WTypes) > 0 && c.WTypes[i] == 1) {
 				ef.WeightType, ef.Weight = 1, c.Weights[i]
 			}
 			reg.eps = append(reg.eps, ef)
@@ -283,6 +323,9 @@ func TestC14Manager(t *testing.T) {
 		}
 		if c.Weighted {
 			cls = append(cls, "manager-weighted")
+		}
+		if len(c.WTypes) > 0 {
+			cls = append(cls, "manager-mixed-weight-types")
 		}
 		st.CaseJSON(c, len(c.Calls) >= 3, cls...)
 		return runM(c)
